@@ -277,6 +277,10 @@ fn tuple2(f: SigNode, env: &mut Uiua) -> UiuaResult {
                 if is_scalar && row_count == 0 {
                     return Ok(0.into());
                 }
+                // The index tuple and the pair cache are allocated up front,
+                // so their sizes must be validated first
+                validate_size::<usize>([k], env)?;
+                validate_size::<Option<bool>>([row_count, row_count], env)?;
                 let mut curr = vec![0; k];
                 let mut cache = vec![None; row_count * row_count];
                 let row_len = arr.row_len();
